@@ -198,6 +198,11 @@ package binary
 //@ func writeTypeConversion
 //@   property C05,C08
 //@   ensures an_integer_that_may_not_fit_is_checked_at_run_time: typeof(typeChange) == *dsl.TypeChangeNumberToNumber && typeChange.(*dsl.TypeChangeNumberToNumber) != nil && !write && dsl.GetPrimitiveKind(old(oldInt(typeChange))) == dsl.PrimitiveKindInteger && dsl.GetPrimitiveKind(old(newInt(typeChange))) == dsl.PrimitiveKindInteger && !holdsAll(old(oldInt(typeChange)), old(newInt(typeChange))) ==> emittedHere("throw std::runtime_error(\"Numeric overflow detected while converting '%s' to '%s'\");\n") == 1
+// docs/cpp/evolution.md, number <-> string: "will result in a write error if its value cannot be converted" - that
+// includes a number that the old integer type cannot hold: std::stoi / std::stoul return int / unsigned long, so for
+// an old type narrower than that the parsed value is range-checked before it is narrowed (`"300"` is not int8 44).
+//@ spec func oldNum(tc dsl.TypeChange) dsl.PrimitiveDefinition = tc.(*dsl.TypeChangeNumberToString).TypePair.Old.(*dsl.SimpleType).ResolvedDefinition.(dsl.PrimitiveDefinition)
+//@   ensures a_parsed_number_that_may_not_fit_is_checked_at_run_time: typeof(typeChange) == *dsl.TypeChangeNumberToString && typeChange.(*dsl.TypeChangeNumberToString) != nil && write && (old(oldNum(typeChange)) == dsl.PrimitiveInt8 || old(oldNum(typeChange)) == dsl.PrimitiveInt16 || old(oldNum(typeChange)) == dsl.PrimitiveUint8 || old(oldNum(typeChange)) == dsl.PrimitiveUint16 || old(oldNum(typeChange)) == dsl.PrimitiveUint32) ==> emittedHere("throw std::out_of_range(\"number out of range\");\n") == 1 && emittedHere("%s = static_cast<%s>(parsed_);\n") == 1 && emittedHere("%s = %s;\n") == 0
 //@   ensures a_fixed_vector_is_not_resized: typeof(typeChange) == *dsl.TypeChangeVectorTypeChanged && typeChange.(*dsl.TypeChangeVectorTypeChanged) != nil && !write && old(fixedVectorTarget(typeChange)) ==> emittedHere("%s.resize(%s.size());\n") == 0
 
 // C05: when the element type of a vector (or of a stream batch) changed, the generated reader converts element by
